@@ -170,6 +170,7 @@ type PathResult struct {
 	Steps         int64
 	UnknownFeas   int
 	lastPanicSite string
+	panicDepth    int
 	funcs         map[string]bool
 }
 
